@@ -388,4 +388,11 @@ FIXTURES = {
     "r7_no_shared_class_state": {"dir": "c06_r7", "expect_construct": "_memory"},
 }
 
-RULES = [r6_set_stores_fresh_sequences, r7_no_shared_class_state, r5_readout_replace_complete, r1_fresh_copy_per_run, r2_copy_is_what_runs, r3_deepcopy_completeness, r4_shared_inputs_read_only]
+def r8_only_this_runs_values_changed(ctx):
+    """"Only that run's parameter values changed": every sequential run's parameter set is the user's defaults with that run's single (key, value) laid over them in a FRESH mapping - no accumulation from one run into the next (shared with C05.R2)."""
+    from props.C05 import r2_run_space
+
+    r2_run_space(ctx)
+
+
+RULES = [r8_only_this_runs_values_changed, r6_set_stores_fresh_sequences, r7_no_shared_class_state, r5_readout_replace_complete, r1_fresh_copy_per_run, r2_copy_is_what_runs, r3_deepcopy_completeness, r4_shared_inputs_read_only]
